@@ -112,3 +112,41 @@ Inductive postres := PostOk | PostErrChanFull | PostBlocked.
 Definition post (cap : nat) (items : list req) (r : req) : list req * postres :=
   if (cap <=? length items)%nat then (items, if post_nonblocking then PostErrChanFull else PostBlocked)
   else (items ++ [r], PostOk).
+
+(* ------------------------------------------------------------------ concurrent callers of PostObservationRequest *)
+(* The outbound queue has independent producers (the processor's cleanup loop, the admin RPC).  A call is one atomic step
+   when the code is the select with default ([post_atomic], GENERATED); a test of len/cap followed by a send is two steps,
+   and the second one — a plain send — cannot proceed on a full queue. *)
+Inductive pstate := PStart | PPassed | PDone (r : postres).
+
+Definition pstep (cap : nat) (items : list req) (ps : pstate) (r : req) : list req * pstate :=
+  match ps with
+  | PStart =>
+    if post_atomic then let '(it, res) := post cap items r in (it, PDone res)
+    else if (cap <=? length items)%nat then (items, PDone PostErrChanFull) else (items, PPassed)
+  | PPassed => if (cap <=? length items)%nat then (items, PPassed) else (items ++ [r], PDone PostOk)
+  | PDone x => (items, PDone x)
+  end.
+
+(* the caller has passed the fullness test and sits in a send that cannot proceed *)
+Definition stalled (cap : nat) (items : list req) (ps : pstate) : bool :=
+  match ps with PPassed => (cap <=? length items)%nat | _ => false end.
+
+Fixpoint set_nth {A} (l : list A) (i : nat) (x : A) : list A :=
+  match l, i with
+  | [], _ => []
+  | _ :: t, O => x :: t
+  | h :: t, S j => h :: set_nth t j x
+  end.
+
+(* a schedule: which caller takes its next step *)
+Fixpoint psched (cap : nat) (reqs : list req) (items : list req) (pss : list pstate) (sched : list nat) : list req * list pstate :=
+  match sched with
+  | [] => (items, pss)
+  | i :: rest =>
+    match nth_error pss i with
+    | None => psched cap reqs items pss rest
+    | Some ps => let '(items', ps') := pstep cap items ps (nth i reqs {| r_chain := 0; r_tx := [] |}) in
+                 psched cap reqs items' (set_nth pss i ps') rest
+    end
+  end.
